@@ -328,7 +328,7 @@ func TestWorker(t *testing.T) {
 				if only := os.Getenv("VERIF_SCENARIO"); only != "" && !strings.HasPrefix(s.Name, only) {
 					continue
 				}
-				s.Monitors = chk.Monitors
+				attach(chk, s)
 				o := h.HOpts{Bound: bound, Shard: shard, Shards: shards, Prune: chk.Prune, Nontrivial: chk.Nontrivial, SampleMax: 2}
 				if chk.ShardByScenario {
 					if i%shards != shard {
@@ -365,7 +365,7 @@ func TestWorker(t *testing.T) {
 func findScenario(chk *props.Check, tier, name string) *h.Scenario {
 	for _, s := range chk.Scenarios(tier) {
 		if s.Name == name {
-			s.Monitors = chk.Monitors
+			attach(chk, s)
 			return s
 		}
 	}
@@ -411,5 +411,12 @@ func TestReplay(t *testing.T) {
 	}
 	for _, v := range hh.Viol {
 		fmt.Printf("VIOLATION property=%s signature=%s: %s\n", v.Prop, v.Sig, v.Msg)
+	}
+}
+
+func attach(chk *props.Check, s *h.Scenario) {
+	s.Monitors = chk.Monitors
+	if chk.MonitorsFor != nil {
+		s.Monitors = func() []h.Monitor { return chk.MonitorsFor(s) }
 	}
 }
